@@ -65,6 +65,13 @@ func verifDir() string {
 	return "/verif"
 }
 
+func evidenceDir() string {
+	if d := os.Getenv("VERIF_EVIDENCE_DIR"); d != "" {
+		return d
+	}
+	return filepath.Join(verifDir(), "evidence")
+}
+
 func goEnv() []string {
 	env := os.Environ()
 	env = append(env, "GOFLAGS=-mod=mod", "GOPROXY=off", "GOSUMDB=off", "GOTOOLCHAIN=local")
@@ -165,7 +172,11 @@ func doCheck(id, tier string) int {
 		fmt.Fprintln(os.Stderr, "unknown check", id)
 		return 2
 	}
-	_ = os.Remove(filepath.Join(verifDir(), "evidence", id+".json"))
+	if repoDir != "/repo" && os.Getenv("VERIF_EVIDENCE_DIR") == "" {
+		// a run against a scratch worktree must not overwrite the evidence of the real tree
+		_ = os.Setenv("VERIF_EVIDENCE_DIR", "/var/tmp/verif-evidence-scratch")
+	}
+	_ = os.Remove(filepath.Join(evidenceDir(), id+".json"))
 	worst := 0
 	if engineChecks[id] {
 		bin, err := buildMC(scratch)
